@@ -185,19 +185,24 @@ enum E {
 ''', ["message", "field", "extension_range", "extension", "delimited", "legacy_required", "reserved_name", "enum"], [])
 
 SKEL["odd"] = ('''syntax = "proto3";
-;
 message Empty {}
-message Semi {
-  ;
-}
 message Flat { int32 a = 1; }
 enum F { F_ZERO = 0; }
 message Kw {
   string message = 1;
   int32 option = 2;
   repeated Kw stream = 3;
-};
+}
 ''', ["message", "field", "enum"], [])
+
+# empty statements: known not to format idempotently, kept apart so that they do not hide anything else
+SKEL["empty"] = ('''syntax = "proto3";
+;
+message Semi {
+  ;
+}
+message After {};
+''', ["message"], [])
 
 TOK = re.compile(r'''"(?:[^"\\\n]|\\.)*"|[0-9][0-9a-zA-Z_.]*|[A-Za-z_][A-Za-z0-9_]*|[=;{}\[\]()<>,.:\-]''')
 GAPNAMES = {"": "none", " ": "sp", "\n": "lf", "\n  ": "lf2", "\n    ": "lf4", "\n      ": "lf6", "\n\n": "blank"}
